@@ -243,6 +243,9 @@ def _default_of_sort(s):
     if s == Obj:
         return z3.Const("null_obj", Obj)
     if isinstance(s, z3.ArraySortRef):
+        if s.range() == Obj:
+            # cvc5 only accepts *values* in constant arrays; the contents of an empty sequence are irrelevant
+            return z3.Const(fresh_name("emptyarr"), s)
         return z3.K(s.domain(), _default_of_sort(s.range()))
     raise ValueError(s)
 
